@@ -300,6 +300,21 @@ def run(ctx: Ctx) -> int:
             ctx.count(("rot", g, lit), bucket="rotation-alone")
             if not upto_phase(M, doc_matrix(g, (float(Fraction(lit)),))):
                 ctx.violation(f"gate-{g}", f"`{text}`: to_matrix() is not the README matrix up to phase", {"text": text})
+    # the tagged form with its named parameters in every order (read by NAME), alone and inside a two-qubit composition
+    import itertools as _it
+    vals = {"theta": 0.3, "phi": -0.85, "lambda": 2.125}
+    for order in _it.permutations(["theta", "phi", "lambda"]):
+        tag = "U3(" + ", ".join(f"{k}={vals[k]}*pi" for k in order) + ")"
+        for text, ops in [(f"I[{tag}] 0", [("U3", (vals["theta"], vals["phi"], vals["lambda"]), [0])]),
+                          (f"H 1\nCX 1 0\nI[{tag}] 0\nS 1", [("H", (), [1]), ("CX", (), [1, 0]), ("U3", (vals["theta"], vals["phi"], vals["lambda"]), [0]), ("S", (), [1])])]:
+            try:
+                M = np.asarray(tsim.Circuit(text).to_matrix())
+            except Exception:
+                ctx.count(("u3-named-rejected", order), nontrivial=False, bucket="rotation-rejected")
+                continue
+            ctx.count(("u3-named", order, text), bucket="u3-named-parameter-order")
+            if not upto_phase(M, reference_matrix(ops), tol=1e-5):
+                ctx.violation("gate-U3-named-order", f"`{text}`: to_matrix() is not U3(theta, phi, lambda) with the angles read by name", {"text": text})
     M = np.asarray(tsim.Circuit("R_Z(0.25) 0").to_matrix())
     if not upto_phase(M, doc_matrix("T")):
         ctx.violation("rz-quarter-T", "R_Z(0.25) is not T up to phase", {"text": "R_Z(0.25) 0"})
